@@ -1,4 +1,6 @@
 import PlumVerif.Generated.Consts
+import PlumVerif.Model.Frame
+import PlumVerif.Model.NetVersion
 /-
 C09 — pool machine for the receive pipeline of `AsyncProtocol` (protocol.py):
 `frame_producer` puts every frame the reader hands out on the read queue
@@ -14,8 +16,14 @@ frames/requests.py):
     CheckDeviceRequest → DeviceAvailableResponse carrying the configured network info,
     both addressed to the request's sender,
   * `frame.data` is decoded (lazily, here) and every item is dispatched on the device.
-Whether this raises is an INPUT BIT of the frame (`raises`), taken from the implementation
-run: which payloads raise is C05's business, what the pipeline does then is C09's.
+Whether obtaining the entry or decoding raises is an INPUT BIT of the frame (`raises`), taken
+from the implementation run: which payloads raise is C05's business, what the pipeline does
+then is C09's.  The automatic replies are modelled down to their BYTES with the encoders of
+Model/NetVersion.lean (proved in Props/C02, C03): building the reply may itself raise (an
+SSID longer than 255 bytes, a version number that does not fit 16 bits — this is what the
+development-build version string did before fix 5104319); that, too, is contained, and the
+request then stays unanswered.  A request handled by the EcoMAX device cannot raise otherwise:
+the device entry exists and `Request.decode_message` returns `{}`.
 
 Consumers are symmetric, so the machine keeps the multiset of frames "in hand" instead of
 named consumers: `alive` consumer tasks exist, `inHand` frames are being handled, a parked
@@ -39,35 +47,74 @@ deriving Repr, DecidableEq
 structure Frame where
   id : Nat            -- position in the received sequence
   cls : Cls
-  sender : Nat        -- address byte of the sender
+  sender : Byte       -- address byte of the sender
   controller : Bool   -- the sender's device answers requests (it is the ecoMAX controller)
   items : Nat         -- number of data items the decoder yields (0: nothing to deliver)
   raises : Bool       -- handling raises (input bit from the implementation run)
 deriving Repr, DecidableEq
 
-inductive RKind
-  | programVersion    -- ProgramVersionResponse (192)
-  | deviceAvailable   -- DeviceAvailableResponse (176)
+/-- what the protocol object was configured with / what the code's defaults are -/
+structure Cfg where
+  net : NetInfo           -- `AsyncProtocol._network` (ethernet / wireless parameters given by the user)
+  ver : VersionInfo       -- `VersionInfo()` defaults incl. SOFTWARE_VERSION
 deriving Repr, DecidableEq
 
-def RKind.code : RKind → Nat
-  | .programVersion => (Gen.frameTypes.lookup "RESPONSE_PROGRAM_VERSION").getD 0
-  | .deviceAvailable => (Gen.frameTypes.lookup "RESPONSE_DEVICE_AVAILABLE").getD 0
+/-- the library's own address (DeviceType.ECONET), default sender of every frame it builds -/
+def ownAddress : Byte := ((Gen.deviceTypes.lookup "ECONET").getD 0).toUInt8
 
-structure Resp where
-  kind : RKind
-  rcpt : Nat          -- recipient address
-  net : Nat           -- which network information it carries (0 = none, not applicable)
+def frameCode (name : String) : Byte := ((Gen.frameTypes.lookup name).getD 0).toUInt8
+
+/-- the frame `Request.response()` builds: kind, recipient = the request's sender, sender = the
+library, the default econet type / version, and the payload -/
+def replyFrame (kind : Byte) (f : Frame) (payload : List Byte) : Fields :=
+  ⟨kind, f.sender, ownAddress, Gen.econetType.toUInt8, Gen.econetVersion.toUInt8, payload⟩
+
+inductive Reply
+  | none                   -- not a request that is answered automatically
+  | raises                 -- building the reply raises (`len(response)` serialises it)
+  | frame (r : Fields)     -- the reply queued for writing
 deriving Repr, DecidableEq
 
-/-- `EcoMAX.handle_frame` + `Request.response`: the automatic reply to a frame -/
-def respOf (cfg : Nat) (f : Frame) : Option Resp :=
-  if f.controller then
-    match f.cls with
-    | .pvReq => some ⟨.programVersion, f.sender, 0⟩
-    | .cdReq => some ⟨.deviceAvailable, f.sender, cfg⟩
-    | _ => none
-  else none
+/-- `EcoMAX.handle_frame` + `Request.response`: the automatic reply to a frame handled by the
+controller's device -/
+def replyOf (cfg : Cfg) (f : Frame) : Reply :=
+  match f.cls with
+  | .pvReq =>
+    match Version.encode cfg.ver ownAddress.toNat with
+    | some m => .frame (replyFrame (frameCode "RESPONSE_PROGRAM_VERSION") f m)
+    | none => .raises
+  | .cdReq =>
+    match Net.encode cfg.net with
+    | some m => .frame (replyFrame (frameCode "RESPONSE_DEVICE_AVAILABLE") f m)
+    | none => .raises
+  | _ => .none
+
+/-- how handling a frame ends: it raised (contained by the consumer), or it completed having
+queued these replies -/
+inductive Handling
+  | raised
+  | done (replies : List Fields)
+deriving Repr, DecidableEq
+
+def handle (cfg : Cfg) (f : Frame) : Handling :=
+  if f.controller && f.cls != .data then
+    -- a request handled by the EcoMAX device: reply first, then `frame.data` = {} (cannot raise)
+    match replyOf cfg f with
+    | .raises => .raised
+    | .none => .done []
+    | .frame r => .done [r]
+  else if f.raises then .raised else .done []
+
+/-- handling ended without raising -/
+def ok (cfg : Cfg) (f : Frame) : Bool :=
+  match handle cfg f with
+  | .raised => false
+  | .done _ => true
+
+def repliesOf (cfg : Cfg) (f : Frame) : List Fields :=
+  match handle cfg f with
+  | .raised => []
+  | .done rs => rs
 
 structure St where
   queue : List Frame          -- read queue, head = oldest
@@ -76,7 +123,7 @@ structure St where
   inHand : List Frame         -- frames taken off the queue whose handling has not ended
   finished : List Frame       -- (ghost) frames whose handling ended, most recent first
   delivered : List Nat        -- ids of frames handed to their device, most recent first
-  responses : List Resp       -- replies queued for writing, most recent first
+  responses : List Fields     -- replies queued for writing, most recent first
 deriving Repr, DecidableEq
 
 def init (n : Nat) : St :=
@@ -88,7 +135,7 @@ inductive Mv
   | finish (f : Frame)   -- the consumer holding `f` finishes handling it
 deriving Repr, DecidableEq
 
-def step (contain : Bool) (cfg : Nat) (s : St) : Mv → St
+def step (contain : Bool) (cfg : Cfg) (s : St) : Mv → St
   | .arrive f => { s with queue := s.queue ++ [f], unfinished := s.unfinished + 1 }
   | .take =>
     match s.queue with
@@ -97,16 +144,17 @@ def step (contain : Bool) (cfg : Nat) (s : St) : Mv → St
   | .finish f =>
     if f ∈ s.inHand then
       let s' := { s with inHand := s.inHand.erase f, finished := f :: s.finished }
-      if f.raises then
+      match handle cfg f with
+      | .raised =>
         if contain then { s' with unfinished := s'.unfinished - 1 }   -- except Exception … finally task_done()
         else { s' with alive := s'.alive - 1 }                        -- the exception ends the task, no task_done
-      else
+      | .done rs =>
         { s' with unfinished := s'.unfinished - 1,                     -- finally: task_done()
                   delivered := f.id :: s'.delivered,
-                  responses := (respOf cfg f).toList ++ s'.responses }
+                  responses := rs ++ s'.responses }
     else s
 
-def run (contain : Bool) (cfg : Nat) (s : St) : List Mv → St
+def run (contain : Bool) (cfg : Cfg) (s : St) : List Mv → St
   | [] => s
   | m :: ms => run contain cfg (step contain cfg s m) ms
 
@@ -122,7 +170,7 @@ def quiescent (s : St) : Bool := s.queue.isEmpty && s.inHand.isEmpty
 /-! ### replay of a harness run: frames arrive in batches, the loop runs to quiescence (FIFO) -/
 
 /-- handle everything that can be handled, oldest first (`fuel` bounds the recursion) -/
-def drain (contain : Bool) (cfg : Nat) : Nat → St → List Mv → St × List Mv
+def drain (contain : Bool) (cfg : Cfg) : Nat → St → List Mv → St × List Mv
   | 0, s, acc => (s, acc)
   | fuel + 1, s, acc =>
     match s.inHand.getLast? with
@@ -136,14 +184,14 @@ def drain (contain : Bool) (cfg : Nat) : Nat → St → List Mv → St × List M
 
 /-- one batch: all frames arrive (the producer does not yield while data is buffered), then
 the consumers run until nothing more can happen -/
-def batch (contain : Bool) (cfg : Nat) (s : St) (fs : List Frame) : St × List Mv :=
+def batch (contain : Bool) (cfg : Cfg) (s : St) (fs : List Frame) : St × List Mv :=
   let s1 := fs.foldl (fun s f => step contain cfg s (.arrive f)) s
   let (s2, acc) := drain contain cfg (2 * (s1.queue.length + s1.inHand.length) + 2) s1 []
   (s2, fs.map .arrive ++ acc.reverse)
 
 /-- a batch that arrives while the consumers cannot finish anything (the device entry is
 still being created): the frames arrive, parked consumers take what they can, nothing ends -/
-def takeAll (contain : Bool) (cfg : Nat) : Nat → St → List Mv → St × List Mv
+def takeAll (contain : Bool) (cfg : Cfg) : Nat → St → List Mv → St × List Mv
   | 0, s, acc => (s, acc)
   | fuel + 1, s, acc =>
     match s.queue with
@@ -152,7 +200,7 @@ def takeAll (contain : Bool) (cfg : Nat) : Nat → St → List Mv → St × List
       if s.inHand.length < s.alive then takeAll contain cfg fuel (step contain cfg s .take) (.take :: acc)
       else (s, acc)
 
-def holdBatch (contain : Bool) (cfg : Nat) (s : St) (fs : List Frame) : St × List Mv :=
+def holdBatch (contain : Bool) (cfg : Cfg) (s : St) (fs : List Frame) : St × List Mv :=
   let s1 := fs.foldl (fun s f => step contain cfg s (.arrive f)) s
   let (s2, acc) := takeAll contain cfg s1.queue.length s1 []
   (s2, fs.map .arrive ++ acc.reverse)
@@ -160,7 +208,7 @@ def holdBatch (contain : Bool) (cfg : Nat) (s : St) (fs : List Frame) : St × Li
 /-- what the harness sees after a batch -/
 structure Snap where
   delivered : List Nat     -- ids of delivered frames that carry data, oldest first
-  responses : List Resp    -- oldest first
+  responses : List Fields  -- oldest first
   unfinished : Nat
   alive : Nat
 deriving Repr, DecidableEq
@@ -172,13 +220,13 @@ def observe (frames : List Frame) (s : St) : Snap :=
     alive := s.alive }
 
 /-- batches are (held?, frames) -/
-def replayH (contain : Bool) (cfg : Nat) (n : Nat) (batches : List (Bool × List Frame)) : List Snap :=
+def replayH (contain : Bool) (cfg : Cfg) (n : Nat) (batches : List (Bool × List Frame)) : List Snap :=
   let all := (batches.map (·.2)).flatten
   (batches.foldl (fun (acc : St × List Snap) b =>
       let s := (if b.1 then holdBatch contain cfg acc.1 b.2 else batch contain cfg acc.1 b.2).1
       (s, observe all s :: acc.2)) (init n, [])).2.reverse
 
-def replay (contain : Bool) (cfg : Nat) (n : Nat) (batches : List (List Frame)) : List Snap :=
+def replay (contain : Bool) (cfg : Cfg) (n : Nat) (batches : List (List Frame)) : List Snap :=
   replayH contain cfg n (batches.map fun fs => (false, fs))
 
 end PlumVerif.Pool
